@@ -2,6 +2,7 @@
 MorphemeList and which fields every reset / build step clears or overwrites.  -> coq/Generated/ResetFacts.v"""
 import re
 import facts as F
+import rewrites as R
 
 
 def struct_fields(text, name, rel):
@@ -36,6 +37,63 @@ def guard(body, lhs_pat, where):
     return m.group(1), m.group(2)
 
 
+def reset_top_path(b):
+    """what StatefulTokenizer::reset does to top_path, decided on the STATEMENTS of the function's top level:
+         clear_or_recreate  Some(p) -> p.clear(), None -> Some(Vec::new())   (match / if let .. else / unconditional assignment)
+         clear_if_some      Some(p) -> p.clear(), None stays                 (Option::map for its effect / if let without else)
+         recreate_if_none   None -> Some(Vec::new()), Some(p) is left as it is
+         none"""
+    bb = R.map_to_if_let("{" + b + "}")[1:-1]
+    new_vec = r"(?:Vec::new\(\)|vec!\[\]|Vec::default\(\)|Default::default\(\))"
+    for s0, e0 in R._top_level_statements(bb):
+        st = re.sub(r"\s+", " ", bb[s0:e0]).strip()
+        if re.fullmatch(r"match self\.top_path\.as_mut\(\) \{ Some\((\w+)\) => \1\.clear\(\), None => self\.top_path = Some\(%s\),? \}" % new_vec, st) or \
+           re.fullmatch(r"match self\.top_path\.as_mut\(\) \{ None => self\.top_path = Some\(%s\), Some\((\w+)\) => \1\.clear\(\),? \}" % new_vec, st) or \
+           re.fullmatch(r"if let Some\((\w+)\) = self\.top_path\.as_mut\(\) \{ \1\.clear\(\);? \} else \{ self\.top_path = Some\(%s\);? \}" % new_vec, st) or \
+           re.fullmatch(r"self\.top_path = Some\(%s\);" % new_vec, st):
+            return "clear_or_recreate"
+        if re.fullmatch(r"if let Some\((\w+)\) = (?:self\.top_path\.as_mut\(\)|&mut self\.top_path) \{ \1\.clear\(\);? \}", st):
+            return "clear_if_some"
+        if re.fullmatch(r"if self\.top_path\.is_none\(\) \{ self\.top_path = Some\(%s\);? \}" % new_vec, st):
+            return "recreate_if_none"
+    return "none"
+
+
+def collect_results_swaps(t, b):
+    """MorphemeList::collect_results(&mut self, A): `A.swap_result(&mut P.input, &mut self.nodes.mut_data(), &mut P.subset)` where
+    P is `G.deref_mut()` of the guard G of `self.input.try_borrow_mut()` -- obtained through `match .. { Ok(mut G) => .. }` or through
+    `let mut G = self.input.try_borrow_mut()<error conversion>?;`"""
+    what = "collect_results: call of swap_result not recognised"
+    sig = re.search(r"\bfn\s+collect_results\s*(?:<[^>]*>)?\s*\(\s*&mut\s+self\s*,\s*(\w+)\s*:", t)
+    if not sig:
+        raise F.FactError(what)
+    m = re.search(r"\b%s\.swap_result\(\s*&mut\s+(\w+)\.input,\s*&mut\s+self\.nodes\.mut_data\(\),\s*&mut\s+(\w+)\.subset,?\s*\);" % re.escape(sig.group(1)), b)
+    if not m or m.group(1) != m.group(2):
+        raise F.FactError(what)
+    part = re.escape(m.group(1))
+    g = re.search(r"\blet\s+%s\s*=\s*(\w+)\.deref_mut\(\);" % part, b[:m.start()])
+    if not g:
+        raise F.FactError(what)
+    guard_name = re.escape(g.group(1))
+    borrow = r"self\s*\.\s*input\s*\.\s*try_borrow_mut\(\)"
+    by_match = re.search(r"\bmatch\s+%s\s*\{\s*Ok\(mut\s+%s\)\s*=>" % (borrow, guard_name), b[:g.start()])
+    by_let = re.search(r"\blet\s+mut\s+%s\s*=\s*%s\s*(?:\.\s*map_err\((?:[^()]|\([^()]*\))*\)\s*)?\?;" % (guard_name, borrow), b[:g.start()])
+    if not by_match and not by_let:
+        raise F.FactError(what)
+
+
+def python_mode_guard(t):
+    """PyTokenizer::tokenize: `let D = mode.map(|m| self.tokenizer.set_mode(m.into()));` (the previous mode, when one is given)
+    and a scopeguard on the tokenizer whose closure puts it back: `D.map(|m| T.set_mode(m));` or `if let Some(m) = D { T.set_mode(m); }`"""
+    what = "python tokenizer: mode override is not restored by a scope guard"
+    tt = R.map_to_if_let(t)
+    m = re.search(r"let\s+(\w+)\s*=\s*mode\.map\(\|(\w+)\|\s*self\.tokenizer\.set_mode\(\2\.into\(\)\)\);\s*"
+                  r"let\s+mut\s+tokenizer\s*=\s*scopeguard::guard\(&mut\s+self\.tokenizer,\s*\|(\w+)\|\s*\{\s*"
+                  r"if\s+let\s+Some\((\w+)\)\s*=\s*\1\s*\{\s*\3\.set_mode\(\4\);\s*\}\s*\}\);", tt)
+    if not m:
+        raise F.FactError(what)
+
+
 def gen():
     out = [F.HEADER]
     # ------------------------------------------------------------------ StatefulTokenizer
@@ -44,13 +102,7 @@ def gen():
     out.append("Definition tokenizer_fields : list string := %s.\n" % strs(struct_fields(t, "StatefulTokenizer", rel)))
     b = F.fn_body(t, "reset", rel)
     cl = clears(b)
-    top = "none"
-    if re.search(r"match\s+self\.top_path\.as_mut\(\)\s*\{\s*Some\(p\)\s*=>\s*p\.clear\(\)\s*,\s*None\s*=>\s*self\.top_path\s*=\s*Some\(Vec::new\(\)\)\s*,?\s*\}", b):
-        top = "clear_or_recreate"
-    elif re.search(r"self\.top_path\.as_mut\(\)\.map\(\|p\|\s*p\.clear\(\)\)\s*;", b):
-        top = "clear_if_some"
-    elif re.search(r"self\.top_path\s*=\s*Some\(Vec::new\(\)\)\s*;", b):
-        top = "clear_or_recreate"
+    top = reset_top_path(b)
     if re.search(r"self\.input\.reset\(\)", b):
         cl = sorted(set(cl + ["input"]))
     out.append("(* StatefulTokenizer::reset: fields cleared; treatment of top_path: clear_if_some | clear_or_recreate | none *)\n")
@@ -74,7 +126,11 @@ def gen():
     steps = [n for _, n in sorted(pos)]
     out.append("Definition do_tokenize_steps : list string := %s.\n" % strs(steps))
     b = F.fn_body(t, "resolve_best_path", rel)
-    need(r"std::mem::replace\(&mut\s+self\.top_path,\s*None\)\.unwrap_or_else\(\|\|\s*Vec::new\(\)\)", b, "resolve_best_path: taking of top_path not recognised")
+    # the stored vector is TAKEN (top_path is left None) and reused, an empty one is used when there is none: any spelling of
+    # take (mem::replace(.., None) / Option::take / mem::take) followed by any spelling of "or an empty Vec"
+    take = r"(?:std::mem::replace\(&mut\s+self\.top_path,\s*None\)|self\.top_path\.take\(\)|std::mem::take\(&mut\s+self\.top_path\))"
+    empty = r"(?:unwrap_or_else\(\|\|\s*Vec::new\(\)\)|unwrap_or_else\(Vec::new\)|unwrap_or_default\(\)|unwrap_or\(Vec::new\(\)\)|unwrap_or\(vec!\[\]\))"
+    need(take + r"\s*\.\s*" + empty, b, "resolve_best_path: taking of top_path not recognised")
     need(r"self\.lattice\.fill_top_path\(&mut\s+self\.top_path_ids\);\s*self\.top_path_ids\.reverse\(\);\s*for\s+pid\s+in\s+self\.top_path_ids\.drain\(\.\.\)", b,
          "resolve_best_path: fill / reverse / drain of top_path_ids not recognised")
     out.append("Definition top_path_ids_drained : bool := true.\n")
@@ -94,8 +150,10 @@ def gen():
         raise F.FactError("impl LatticeBuilder not found")
     b = F.fn_body(m.group(1), "build_lattice", rel)
     need(r"self\.lattice\.reset\(self\.input\.current_chars\(\)\.len\(\)\);", b, "build_lattice: lattice.reset(len of current chars) not found")
-    m1 = re.search(r"self\.node_buffer\.clear\(\);", b)
-    m2 = re.search(r"self\.lexicon\.lookup\(", b)
+    # private helpers of the builder are read as if inlined at their call
+    bx = R.inline_calls(b, m.group(1), skip=("build_lattice",))
+    m1 = re.search(r"self\.node_buffer\.clear\(\);", bx)
+    m2 = re.search(r"self\.lexicon\.lookup\(", bx)
     if not m1 or not m2 or m1.start() > m2.start():
         raise F.FactError("build_lattice: node_buffer is not cleared before it is filled")
     out.append("Definition node_buffer_cleared_before_use : bool := true.\n")
@@ -168,7 +226,7 @@ def gen():
     out.append("Definition input_part_fields : list string := %s.\n" % strs(struct_fields(t, "InputPart", rel)))
     out.append("Definition nodes_fields : list string := %s.\n" % strs(struct_fields(t, "Nodes", rel)))
     b = F.fn_body(t, "collect_results", rel)
-    need(r"analyzer\.swap_result\(\s*&mut\s+mref\.input,\s*&mut\s+self\.nodes\.mut_data\(\),\s*&mut\s+mref\.subset,\s*\);", b, "collect_results: call of swap_result not recognised")
+    collect_results_swaps(t, b)
     b = F.fn_body(t, "lookup", rel)
     need(r"input\.reset\(\)\.push_str\(query\);\s*input\.start_build\(\)\?;\s*input\.build\(self\.dict\.grammar\(\)\)\?;", b, "MorphemeList::lookup: buffer preparation not recognised")
     out.append("Definition mlist_recognised : bool := true.\n")
@@ -177,8 +235,7 @@ def gen():
     rel = "python/src/tokenizer.rs"
     t = F.strip_comments(F.src(rel))
     need(r"tokenizer\.reset\(\)\.push_str\(text\);\s*tokenizer\.do_tokenize\(\)", t, "python tokenizer: reset/push_str/do_tokenize protocol not recognised")
-    need(r"let\s+default_mode\s*=\s*mode\.map\(\|m\|\s*self\.tokenizer\.set_mode\(m\.into\(\)\)\);\s*let\s+mut\s+tokenizer\s*=\s*scopeguard::guard\(&mut\s+self\.tokenizer,\s*\|t\|\s*\{\s*default_mode\.map\(\|m\|\s*t\.set_mode\(m\)\);\s*\}\);", t,
-         "python tokenizer: mode override is not restored by a scope guard")
+    python_mode_guard(t)
     need(r"\.collect_results\(tokenizer\.deref_mut\(\)\)", t, "python tokenizer: collect_results not found")
     rel = "python/src/pretokenizer.rs"
     t = F.strip_comments(F.src(rel))
